@@ -293,6 +293,8 @@ EOL_MUTATIONS = [
     ("nul-crlf", b"\x00\r\n"),
     ("vt", b"\x0b"),
     ("nel", b"\x85"),
+    ("x-lf", b"X\n"),
+    ("nul-lf", b"\x00\n"),
 ]
 
 NAME_MUTATIONS = [
